@@ -72,6 +72,9 @@ func Run(c *hx.Ctx) {
 			runTF(c, genTF(c, i))
 		}
 	}
+	if only == "" || only == "tlsh" {
+		runTLSHandover(c)
+	}
 	if only == "" || only == "hw" {
 		initEnv()
 		runHandoverWrites(c)
